@@ -39,6 +39,10 @@ type HCFacts struct {
 	FnPtrWiring     [][2]string // `lj_internal_* = f;` assignments: (pointer, function)
 	ErrChecks       [][4]string // (Go callback that refuses with an error value, C caller, test of the returned value, raise|noraise)
 	Refusing        []string    // exported Go callbacks that have a refusing flag branch, in program order
+	// round 3b: the keyword gate of db.query (sqlcheck.c) and the gates in front of sqlite3_prepare
+	SQLReadonlyFirst   [][2]string // (leading keyword, prefix|exact|pragma|unrecognised) for which sqlcheck_is_readonly_sql answers non-zero
+	SQLReadonlyPragmas [][2]string // (pragma name, prefix|exact|unrecognised) that sqlcheck_is_permitted_pragma admits
+	PrepareGates       [][2]string // (table.luaName of a registered function that calls sqlite3_prepare*, gate calls before it, comma separated)
 }
 
 var hcGuards = map[string]bool{"luaCheckView": true, "sqlcheck_is_readonly_sql": true, "sqlite3_stmt_readonly": true}
@@ -204,6 +208,9 @@ func HScanC(dir string, prog *HProgram) (*HCFacts, error) {
 		for _, m := range hcPtrRe.FindAllStringSubmatch(blank, -1) {
 			facts.FnPtrWiring = append(facts.FnPtrWiring, [2]string{m[1], m[2]})
 		}
+		if n == "sqlcheck.c" {
+			facts.SQLReadonlyFirst, facts.SQLReadonlyPragmas = hcSQLCheckRules(hcFunctions(n, noComments))
+		}
 	}
 	lookup := func(file, name string) *HCFunc {
 		if f, ok := facts.Funcs[file+":"+name]; ok {
@@ -273,6 +280,22 @@ func HScanC(dir string, prog *HProgram) (*HCFacts, error) {
 			lf.CFunc = r.cfunc + " (not defined in the scanned files)"
 		}
 		facts.LuaFns = append(facts.LuaFns, lf)
+		if f != nil {
+			// gates in front of the first sqlite3_prepare* call of the function itself
+			for _, m := range hcCallRe.FindAllStringSubmatchIndex(f.Body, -1) {
+				if strings.HasPrefix(f.Body[m[2]:m[3]], "sqlite3_prepare") {
+					var gates []string
+					for _, g := range hcCallRe.FindAllStringSubmatchIndex(f.Body, -1) {
+						c := f.Body[g[2]:g[3]]
+						if g[0] < m[0] && (hcGuards[c] || c == "sqlcheck_is_permitted_sql") {
+							gates = append(gates, c)
+						}
+					}
+					facts.PrepareGates = append(facts.PrepareGates, [2]string{r.table + "." + r.lua, strings.Join(gates, ",")})
+					break
+				}
+			}
+		}
 	}
 	var names []string
 	for k := range facts.Funcs {
